@@ -265,13 +265,17 @@ impl Workload for SchedWorkload {
             "build" | "build-list" => {
                 let k = crate::gen::pick_k(&mut rng);
                 // both sides of the 10-samples-per-thread rule at depth 1 and 2
-                let n = match rng.below(6) {
-                    0 => rng.range(2, 6),
-                    1 => rng.range(9, 11),
-                    2 | 3 => rng.range(19, 22),
-                    _ => rng.range(39, 42),
+                // depth d of the recursive split needs min(threads, 1 + n/10) >= 2^d
+                let n = match rng.below(16) {
+                    0 | 1 => rng.range(2, 6),
+                    2 | 3 => rng.range(9, 11),
+                    4..=7 => rng.range(19, 22),
+                    8..=12 => rng.range(39, 42),
+                    13 | 14 => rng.range(69, 74), // depth 3 with >= 8 threads
+                    _ => rng.range(149, 153),    // depth 4 with 16 threads
                 };
-                let mut o = GenomeOpts::plain(rng.range(k + 20, k + 90));
+                let big = n >= 69;
+                let mut o = GenomeOpts::plain(if big { rng.range(k + 8, k + 30) } else { rng.range(k + 20, k + 90) });
                 o.deletions = rng.chance(50);
                 o.repeats = rng.chance(30);
                 let samples = gen_samples(&mut rng, n, k, &o, "s");
@@ -282,7 +286,15 @@ impl Workload for SchedWorkload {
                     reference: None,
                     cmd: SchedCmd::Build { list: kind == "build-list" },
                     base,
-                    variants: Self::gen_variants(&mut rng, nvar, 16),
+                    variants: {
+                        let mut v = Self::gen_variants(&mut rng, if big { 3 } else { nvar }, 16);
+                        if big {
+                            // the thread counts that reach the deepest split for this n
+                            v[0].0 = 8;
+                            v[1].0 = 16;
+                        }
+                        v
+                    },
                 }
             }
             "align-skf" | "align-seq" | "distance" | "map-skf" | "map-seq" => {
@@ -347,7 +359,9 @@ impl Workload for SchedWorkload {
                 r.name = "ref".into();
                 SchedCase {
                     k,
-                    single_strand: false,
+                    // lo accepts single-strand files too (a k-mer and its reverse complement can then
+                    // both be rows of the table)
+                    single_strand: rng.chance(30),
                     samples: all,
                     reference: if with_ref { Some(r) } else { None },
                     cmd: SchedCmd::Lo {
